@@ -3,6 +3,7 @@ package sim
 import (
 	"fmt"
 	"hash/fnv"
+	"regexp"
 	"sort"
 	"strconv"
 	"strings"
@@ -88,6 +89,10 @@ type Monitors struct {
 	jcLast    map[string]*execution.JobConfig
 	Notes     []string
 	foreign   map[string]bool
+	// cron: requests per key, scheduled JobConfigs with their reference stream
+	reqCount    map[string]int
+	DupRequests int // schedule keys requested at least twice (any incarnation, incl. injected duplicates)
+	cronJCs     map[string]*cronJC
 	// non-triviality measures
 	Retries          int
 	MultiAttemptJobs int
@@ -129,6 +134,105 @@ func (m *Monitors) abstract(s string) {
 	h.Write([]byte(s))
 	m.trace = h.Sum64()
 	m.nEv++
+}
+
+// cronJC is what the monitor knows about a scheduled JobConfig: its "a/N * * * * * *" expression
+// (every N seconds from second a of each minute) and the window in which it was enabled.
+type cronJC struct {
+	UID, NS, Name string
+	A, N          int
+	Policy        execution.ConcurrencyPolicy
+	EnabledAt     time.Time
+	StopAt        time.Time
+}
+
+var cronRe = regexp.MustCompile(`^(\d+)/(\d+) \* \* \* \* \* \*$`)
+
+func cronOf(jc *execution.JobConfig) (a, n int, ok bool) {
+	s := jc.Spec.Schedule
+	if s == nil || s.Cron == nil || s.Disabled || jc.DeletionTimestamp != nil {
+		return 0, 0, false
+	}
+	mm := cronRe.FindStringSubmatch(s.Cron.Expression)
+	if mm == nil {
+		return 0, 0, false
+	}
+	a, _ = strconv.Atoi(mm[1])
+	n, _ = strconv.Atoi(mm[2])
+	return a, n, n > 0
+}
+
+func (m *Monitors) trackCron(ev *Event, jc *execution.JobConfig) {
+	if m.cronJCs == nil {
+		m.cronJCs = map[string]*cronJC{}
+	}
+	now := m.w.Clk.Now()
+	uid := string(jc.UID)
+	a, n, ok := cronOf(jc)
+	if ev.Type == Deleted {
+		ok = false
+	}
+	c := m.cronJCs[uid]
+	switch {
+	case c == nil && ok:
+		m.cronJCs[uid] = &cronJC{UID: uid, NS: jc.Namespace, Name: jc.Name, A: a, N: n, Policy: jc.Spec.Concurrency.Policy, EnabledAt: now}
+	case c != nil && c.StopAt.IsZero() && (!ok || a != c.A || n != c.N):
+		c.StopAt = now // schedule disabled / removed / changed: the reference stream of this record ends here
+	}
+}
+
+// onCronRequest observes every schedule request put on the cron queue.
+func (m *Monitors) onCronRequest(inc *Incarnation, item interface{}) {
+	if m.reqCount == nil {
+		m.reqCount = map[string]int{}
+	}
+	k := fmt.Sprint(item)
+	m.reqCount[k]++
+	m.Evals["C02_requests"]++
+	if m.reqCount[k] == 2 {
+		m.DupRequests++
+	}
+	m.cronReq = append(m.cronReq, CronRequest{Key: k, At: m.w.Clk.Now(), Inc: inc.N})
+}
+
+// CronRequests returns every schedule request observed so far.
+func (m *Monitors) CronRequests() []CronRequest { return m.cronReq }
+
+// MissingSchedules lists, for every Allow/Enqueue JobConfig with an "a/N" schedule, the due
+// schedule times strictly inside its determinate window for which no Job was ever created.
+// Times within one cron step after creation (the first tick may come before or after the
+// Add is delivered) and at or after the disabling instant are indeterminate and not demanded.
+func (m *Monitors) MissingSchedules() (due int, missing []string) {
+	if m.w.Stat["crashes"] > 0 {
+		return 0, nil // after a crash a never-scheduled JobConfig is legitimately not back-scheduled
+	}
+	end := m.w.lastTick
+	var uids []string
+	for uid := range m.cronJCs {
+		uids = append(uids, uid)
+	}
+	sort.Strings(uids)
+	for _, uid := range uids {
+		c := m.cronJCs[uid]
+		if c.Policy == execution.ConcurrencyPolicyForbid {
+			continue
+		}
+		from := c.EnabledAt.Add(m.w.Opt.CronStep)
+		to := c.StopAt
+		if to.IsZero() || to.After(end) {
+			to = end
+		}
+		for t := from.Truncate(time.Second).Add(time.Second); t.Before(to); t = t.Add(time.Second) {
+			if sec := t.UTC().Second(); sec < c.A || (sec-c.A)%c.N != 0 {
+				continue
+			}
+			due++
+			if _, ok := m.schedJobs[uid+"@"+strconv.FormatInt(t.Unix(), 10)]; !ok {
+				missing = append(missing, fmt.Sprintf("%s/%s@%v", c.NS, c.Name, t.Sub(Epoch)))
+			}
+		}
+	}
+	return due, missing
 }
 
 // TraceHash identifies the abstract trace (actors, verbs, kinds and state classes with names and times erased).
@@ -401,6 +505,7 @@ func (m *Monitors) podCreated(ev *Event, p *corev1.Pod, juid string) {
 		}
 		if r.live() {
 			m.fail("C08", "second-live-task", "task %s created while %s of the same index is neither finished nor gone", p.Name, r.Name)
+			m.fail("C09", "second-task-for-attempt", "task %s created while %s of the same index is neither finished nor gone (a lost record must lead to adoption, not to a second task)", p.Name, r.Name)
 		}
 		if r.Succeeded {
 			// stable fact; judged on what the reconcile could know: its view or the persisted status
@@ -1139,6 +1244,7 @@ func (m *Monitors) jobCreated(ev *Event, j *execution.Job) {
 
 func (m *Monitors) onJobConfig(ev *Event) {
 	jc := ev.Object.(*execution.JobConfig)
+	m.trackCron(ev, jc)
 	m.abstract(fmt.Sprintf("%s|%s|jc|%s|a%dq%d", actorClass(ev.Actor), ev.Verb, ev.Type, jc.Status.Active, jc.Status.Queued))
 	if ev.Type == Modified {
 		old := ev.Old.(*execution.JobConfig)
@@ -1264,6 +1370,12 @@ func (m *Monitors) Fixpoint() {
 	}
 	jobs := w.API.List(KJob)
 	cfg := m.jobCfg()
+	for _, c := range w.Inc.Ctls {
+		m.Evals["C20_requeue"]++
+		if c.Q.MaxRequeue > 40 {
+			m.fail("C20", "endless-retry", "an item of the %s queue was re-queued with back-off %d times in a row", c.Name, c.Q.MaxRequeue)
+		}
+	}
 	for _, o := range jobs {
 		j := o.(*execution.Job)
 		jr := m.jobs[string(j.UID)]
@@ -1450,3 +1562,41 @@ func (m *Monitors) unrecordedClass(j *execution.Job) string {
 	}
 	return "unrecorded-task:adoptable"
 }
+
+// Outcome summarises what happened to every Job ever created, for twin-run comparison:
+// name -> final result ("unfinished" if it never finished). Scheduled Jobs whose schedule
+// time is not strictly inside the determinate window of their JobConfig (within one cron
+// step after it was enabled, or at/after the instant it was disabled) are left out: whether
+// such a time fires depends on the order of a tick and a delivery at the same instant.
+// Task-level results are not compared: once a Job is decided its remaining tasks are
+// stopped, and whether one of them finishes on its own first is a race, not an outcome.
+func (m *Monitors) Outcome() map[string]string {
+	out := map[string]string{}
+	for _, jr := range m.jobs {
+		if jr.LastObj != nil {
+			if ann, ok := jr.LastObj.Annotations[AnnScheduleTime]; ok {
+				u, _ := strconv.ParseInt(ann, 10, 64)
+				t := time.Unix(u, 0)
+				c := m.cronJCs[jr.JCUID]
+				if c == nil || !t.After(c.EnabledAt.Add(m.w.Opt.CronStep)) || (!c.StopAt.IsZero() && !t.Before(c.StopAt)) {
+					continue
+				}
+			}
+		}
+		res := "unfinished"
+		if jr.LastObj != nil && jr.LastObj.Status.Condition.Finished != nil {
+			res = string(jr.LastObj.Status.Condition.Finished.Result)
+		}
+		succ := map[string]bool{}
+		for _, r := range jr.Pods {
+			if r.Succeeded {
+				succ[r.Idx] = true
+			}
+		}
+		out[jr.NS+"/"+jr.Name] = res
+	}
+	return out
+}
+
+// ScheduledJobs returns "jobconfig uid@unix" for every scheduled Job ever created.
+func (m *Monitors) ScheduledJobs() map[string]string { return m.schedJobs }
